@@ -321,6 +321,14 @@ func ruleFull(c *Ctx) {
 							fresh = true
 						}
 					}
+					// isStarted written in place: th.currentFrame == nil holds
+					if b, ok := cd.V.(*ssa.BinOp); ok && eqHolds(b, cd) {
+						cfF := p.Field("lua", "LState", "currentFrame")
+						isNil := func(v ssa.Value) bool { k, ok := v.(*ssa.Const); return ok && k.IsNil() }
+						if _, ok := loadsField(b.X, cfF); ok && isNil(b.Y) {
+							fresh = true
+						}
+					}
 				}
 			}
 			c.check(fresh, R, key, p.ipos(in), "first frame of a thread that has not started (empty stack)", "a call frame is pushed without an IsFull() test that raises: overflow reaches the stack implementation's raw panic / index error instead of a catchable 'stack overflow' error")
@@ -635,16 +643,49 @@ func ruleOptions(c *Ctx) {
 		}
 		c.check(ok1 && ok2, R, "newLState:stack-selection", p.pos(fn.Pos()), "MinimizeStackMemory selects the implementation; both are sized by CallStackSize", "the two call-stack implementations are not selected by MinimizeStackMemory alone or are sized differently")
 		ok3 := false
+		// which parameter of newRegistry initialises which field (the parameter list may be in any order)
+		growIdx, maxIdx := 2, 3
+		if newReg != nil {
+			gF, mF := p.Field("lua", "registry", "growBy"), p.Field("lua", "registry", "maxSize")
+			allInstrs(newReg, func(in ssa.Instruction) {
+				st, ok := in.(*ssa.Store)
+				if !ok {
+					return
+				}
+				fa, ok := st.Addr.(*ssa.FieldAddr)
+				pm, isP := st.Val.(*ssa.Parameter)
+				if !ok || !isP {
+					return
+				}
+				for i, q := range newReg.Params {
+					if q == pm && fieldOf(fa) == gF && gF != nil {
+						growIdx = i
+					}
+					if q == pm && fieldOf(fa) == mF && mF != nil {
+						maxIdx = i
+					}
+				}
+			})
+		}
 		for _, cl := range callsTo(fn, newReg) {
 			a := cl.Call.Args
-			ok3 = len(a) >= 4 && fieldArg(a[1], "RegistrySize") && fieldArg(a[2], "RegistryGrowStep") && fieldArg(a[3], "RegistryMaxSize")
+			sizeOK := false
+			for i := range a {
+				if i != growIdx && i != maxIdx && fieldArg(a[i], "RegistrySize") {
+					sizeOK = true
+				}
+			}
+			ok3 = len(a) > growIdx && len(a) > maxIdx && sizeOK && fieldArg(a[growIdx], "RegistryGrowStep") && fieldArg(a[maxIdx], "RegistryMaxSize")
 		}
 		c.check(ok3, R, "newLState:registry-options", p.pos(fn.Pos()), "registry created from RegistrySize / RegistryGrowStep / RegistryMaxSize in that order", "registry options are not passed to newRegistry in the order (size, growBy, maxSize)")
 	}
 	if fn := c.need(R, "lua", "newRegistry"); fn != nil {
 		// struct literal field order: array(make size), top 0, growBy, maxSize
 		okc := true
-		want := map[string]int{"growBy": 2, "maxSize": 3}
+		// each of the two fields is initialised from a parameter of its own (which one: checked at the caller,
+		// newLState:registry-options, through the same correspondence)
+		gF, mF := p.Field("lua", "registry", "growBy"), p.Field("lua", "registry", "maxSize")
+		from := map[*types.Var]*ssa.Parameter{}
 		allInstrs(fn, func(in ssa.Instruction) {
 			st, ok := in.(*ssa.Store)
 			if !ok {
@@ -655,16 +696,19 @@ func ruleOptions(c *Ctx) {
 				return
 			}
 			f := fieldOf(fa)
-			if f == nil {
+			if f == nil || (f != gF && f != mF) {
 				return
 			}
-			if idx, has := want[f.Name()]; has {
-				pm, isP := st.Val.(*ssa.Parameter)
-				if !isP || fn.Params[idx] != pm {
-					okc = false
-				}
+			pm, isP := st.Val.(*ssa.Parameter)
+			if !isP {
+				okc = false
+				return
 			}
+			from[f] = pm
 		})
+		if from[gF] == nil || from[mF] == nil || from[gF] == from[mF] {
+			okc = false
+		}
 		c.check(okc, R, "newRegistry:fields", p.pos(fn.Pos()), "growBy and maxSize are initialised from the matching parameters", "newRegistry swaps growBy / maxSize")
 	}
 	// fixed stack: array sized by the parameter; auto: ceil(maxSize/FramesPerSegment) segments
